@@ -22,9 +22,9 @@ type Op = kvmodel.Op
 const far = 1000 // expiry ≈ 41 days ahead: never reached here (clock movement is C06's business)
 
 // besides plain keys: keys that some path-cleaning or prefix logic could confuse with each other or with nothing
-// ("a/" vs "a", "k//1" vs "k/1", "./a", "b/../a" vs "a"). The empty key is left out: gobwas/glob (v0.2.3) matches it with "?", a quirk of the library the contract refers to, not of golibs. Keys with a LEADING '/' stay excluded
+// ("a/" vs "a", "k//1" vs "k/1", "./a", "b/../a" vs "a"). The empty key takes part; only its membership in listings whose pattern contains "?" is not judged: gobwas/glob (v0.2.3) lets "?" match nothing, a quirk of the library the contract refers to, not of golibs. Keys with a LEADING '/' stay excluded
 // (the Redis backend strips them by design).
-var allKeys = []string{"a", "b", "ab", "k/1", "k/2", "zz", "a/", "k//1", "./a", "b/../a"}
+var allKeys = []string{"a", "b", "ab", "k/1", "k/2", "zz", "a/", "k//1", "./a", "b/../a", ""}
 
 // the operation instances enumerated exhaustively
 func alphabet(backend string) []Op {
@@ -32,7 +32,9 @@ func alphabet(backend string) []Op {
 	// records written with an expiry that has already passed (on Redis such a key lives for a millisecond: the
 	// backend view lets 5 ms of the server clock pass after such a write), and "never" expiries (year 2300 / 9999)
 	a = append(a, Op{K: "Put", Key: "a", Val: 2, Exp: -1}, Op{K: "PutMany", Keys: []string{"ab", "a"}, Val: 1, Exps: []int{0, -1}},
-		Op{K: "Put", Key: "ab", Val: 3, Exp: kvmodel.Never2}, Op{K: "Cas", Key: "a", Val: 1, Ver: "cur", Exp: kvmodel.Never1})
+		Op{K: "Put", Key: "ab", Val: 3, Exp: kvmodel.Never2}, Op{K: "Cas", Key: "a", Val: 1, Ver: "cur", Exp: kvmodel.Never1},
+		// the empty key is a key like any other
+		Op{K: "Put", Key: "", Val: 2}, Op{K: "Delete", Key: ""})
 	return a
 }
 
@@ -141,7 +143,7 @@ func (w *worker) backend(name string) *kvmodel.Backend {
 func TestCheck(t *testing.T) {
 	run := report.New("C03", "exploration")
 	defer run.Finish(t)
-	run.Rule("every sequence over 52 operation instances (incl. keys like \"a/\", \"k//1\", \"b/../a\" ) (Create/Get/GetMany/Put/PutMany/CasByVersion/Delete/ListKeys/WaitForVersionChange; nil/empty/non-empty values; with/without far expiry, expiries already past when written and 'never' expiries (years 2300 / 9999); on Redis the time to live the server holds for every written key is compared with the expiry that was given; repeated, missing and no keys in GetMany/PutMany; current/stale/made-up/caller-supplied versions) to the depth bound, plus seeded random sequences of length 30-200 over 6 keys; each backend is compared call by call with the contract model (error class, returned record, version relations, ListKeys as a set). distinct = distinct logical store states (key, presence, value, expiry, kind of last write) reached")
+	run.Rule("every sequence over 54 operation instances (incl. the empty key; every ListKeys is followed by a second listing that is opened and drained before the first one is read) (incl. keys like \"a/\", \"k//1\", \"b/../a\" ) (Create/Get/GetMany/Put/PutMany/CasByVersion/Delete/ListKeys/WaitForVersionChange; nil/empty/non-empty values; with/without far expiry, expiries already past when written and 'never' expiries (years 2300 / 9999); on Redis the time to live the server holds for every written key is compared with the expiry that was given; repeated, missing and no keys in GetMany/PutMany; current/stale/made-up/caller-supplied versions) to the depth bound, plus seeded random sequences of length 30-200 over 6 keys; each backend is compared call by call with the contract model (error class, returned record, version relations, ListKeys as a set). distinct = distinct logical store states (key, presence, value, expiry, kind of last write) reached")
 	run.Assume("Redis backend runs against the in-process miniredis server; keys with a leading '/' and invalid glob patterns are not generated (contract silent)")
 	run.Assume("values are compared with bytes.Equal (nil == empty), expiries as instants, ListKeys as a set")
 
